@@ -618,8 +618,21 @@ def fam_exact_chain(seed, big=False, dtype=None):
     c = int(r.choice([1, 3, 4, 8, 16, 17, 32]))
     if not big and r.integers(0, 10) == 0:
         h, w, c = 1, 1, int(r.choice([8, 16, 24, 40]))  # 1x1 spatial: 1x1 convolutions become fully-connected operations
+    strided_first = (not big) and (h, w) != (1, 1) and r.integers(0, 4) == 0
+    if strided_first:
+        # a shallow, horizontally strided first convolution (image input): the compiler folds the x stride into the channels and pads the filter;
+        # asymmetric uint8 filters in half of them
+        c = int(r.choice([1, 3, 4]))
+        h, w = max(h, 8), max(w, 8)
+        if r.integers(0, 3):
+            g.dtype = dtype = "uint8"
     x = g.input([1, h, w, c])
     n = int(r.integers(2, 7 if not big else 10))
+    if strided_first:
+        sw = int(r.choice([2, 2, 3]))
+        x = g.conv(x, int(r.choice([8, 16])), int(r.choice([3, 3, 5, 2])), int(r.choice([1, sw])), int(r.choice([PAD_SAME, PAD_VALID])), int(r.choice([ACT_NONE, ACT_RELU])), stride_w=sw,
+                   kw=int(r.choice([3, 3, 5, 4])))
+        n -= 1
     for _ in range(n):
         x = _rand_exact_op(g, x, big=big)
     outs = [x]
@@ -628,6 +641,24 @@ def fam_exact_chain(seed, big=False, dtype=None):
         y = g.reshape(x, [1, int(np.prod(X.shape))])
         outs = [g.fc(y, int(r.choice([4, 10, 16, 33])), int(r.choice([ACT_NONE, ACT_RELU])))]
     return g.finish(outs, "exact-chain", "exact")
+
+
+def fam_strided_first(seed):
+    """image-like input (1, 3 or 4 channels) into a horizontally strided first convolution - the compiler folds the x stride into the channels, narrows the
+    IFM and pads the filter columns (with the filter's zero point) - followed by a few exact operators; two thirds with asymmetric uint8 filters"""
+    r = rng_for("strided-first", seed)
+    dtype = "uint8" if r.integers(0, 3) else str(r.choice(["int8", "int16"]))
+    g = G(r, dtype)
+    c = int(r.choice([1, 3, 3, 4]))
+    sw = int(r.choice([2, 2, 2, 3, 4])) if c == 1 else 2
+    h = int(r.choice([6, 8, 9, 12, 16]))
+    w = sw * int(r.choice([4, 5, 6, 8, 12]))
+    x = g.input([1, h, w, c])
+    x = g.conv(x, int(r.choice([8, 16, 5])), int(r.choice([1, 2, 3, 3, 5])), int(r.choice([1, 2])), int(r.choice([PAD_SAME, PAD_VALID])), int(r.choice([ACT_NONE, ACT_RELU, ACT_RELU6])),
+               stride_w=sw, kw=int(r.choice([2, 3, 3, 4, 5, 7])), per_channel=bool(r.integers(0, 2)))
+    for _ in range(int(r.integers(0, 3))):
+        x = _rand_exact_op(g, x)
+    return g.finish([x], "strided-first", "exact")
 
 
 def fam_exact_dag(seed):
@@ -1033,6 +1064,7 @@ def fam_tiny(seed):
 FAMILIES = {
     "exact-chain": fam_exact_chain,
     "exact-dag": fam_exact_dag,
+    "strided-first": fam_strided_first,
     "approx-tail": fam_approx_tail,
     "stripe-stress": fam_stripe_stress,
     "buffer-stress": fam_buffer_stress,
